@@ -11,7 +11,16 @@ use std::collections::HashMap;
 
 pub struct C15;
 
-pub const NAMES: [&str; 6] = ["a", "b", "n", "fill", "width", "label"];
+pub const NAMES: [&str; 7] = ["a", "b", "n", "fill", "width", "label", "stroke-width"];
+
+/// a reference to the name: `$name`, or `${name}` where the name is not a plain identifier
+fn dollar(n: usize) -> String {
+    if NAMES[n].contains('-') {
+        format!("${{{}}}", NAMES[n])
+    } else {
+        format!("${}", NAMES[n])
+    }
+}
 
 #[derive(Clone, Debug, Serialize, Deserialize)]
 pub enum Val {
@@ -224,14 +233,14 @@ fn fam_programs(_t: Tier) -> BoxedStrategy<Case> {
 fn val_txt(v: &Val) -> String {
     match v {
         Val::Lit(s) => s.clone(),
-        Val::Ref(n) => format!("${}", NAMES[*n]),
+        Val::Ref(n) => dollar(*n),
         Val::Cat(n, s) => format!("${{{}}}{s}", NAMES[*n]),
         Val::Inc(k) => format!("{{{{$n + {k}}}}}"),
     }
 }
 
 fn probe_text() -> String {
-    format!("p:{}", NAMES.iter().map(|n| format!("${n}")).collect::<Vec<_>>().join("|"))
+    format!("p:{}", (0..NAMES.len()).map(dollar).collect::<Vec<_>>().join("|"))
 }
 
 fn render(prog: &[Stmt], out: &mut Vec<X>) {
@@ -347,7 +356,7 @@ fn eval_val(v: &Val, stack: &[Scope]) -> Option<String> {
 }
 
 fn probe_expected(prefix: &str, stack: &[Scope]) -> String {
-    format!("{prefix}:{}", (0..NAMES.len()).map(|n| lookup(stack, n).unwrap_or(format!("${}", NAMES[n]))).collect::<Vec<_>>().join("|"))
+    format!("{prefix}:{}", (0..NAMES.len()).map(|n| lookup(stack, n).unwrap_or(dollar(n))).collect::<Vec<_>>().join("|"))
 }
 
 /// Returns None when the program is outside the domain (an increment of a non-numeric n: the transform must then fail).
@@ -473,7 +482,7 @@ impl Property for C15 {
         "C15"
     }
     fn rule(&self) -> String {
-        "cases = programs of 2-9 top-level statements nested up to 4 deep over <g attrs> and <reuse attrs> (scope forming), <loop> / <if> (transparent), <var> assignments (literals, $other, ${name}x concatenation, numeric increments, several names at once - parallel swaps), shapes holding a forward reference (which force re-evaluation of whatever encloses them), a probe with an id in the document body that is reused with attributes of its own, and probes <text text=\"p:$a|$b|$n|$fill|$width|$label\"/> reading every name in play; names deliberately coincide with attribute names. \
+        "cases = programs of 2-9 top-level statements nested up to 4 deep over <g attrs> and <reuse attrs> (scope forming), <loop> / <if> (transparent), <var> assignments (literals, $other, ${name}x concatenation, numeric increments, several names at once - parallel swaps), shapes holding a forward reference (which force re-evaluation of whatever encloses them), a probe with an id in the document body that is reused with attributes of its own, and probes <text text=\"p:$a|$b|$n|$fill|$width|$label\"/> reading every name in play; names deliberately coincide with attribute names, one of them hyphenated (read as ${stroke-width}). \
          Oracle 1: a reference interpreter of the stated rule (innermost enclosing definition; <var> values die with the enclosing g / reuse instance; parallel assignment from the values in force before; undefined $name verbatim) predicts every probe's text in output order. Oracle 2 (metamorphic): the same program with the referenced element moved to the front (no forward reference left) yields the same probe texts. \
          Non-trivial = a forward reference sits inside a scope and a probe follows that scope's end, or the program contains a reuse; distinct by hash of the case."
             .into()
